@@ -6,7 +6,7 @@ log = sys.argv[1] if len(sys.argv) > 1 else '/tmp/mutall2.log'
 rows = []
 for line in open(log):
     line = line.rstrip('\n')
-    m = re.match(r'^(C\d\d_[AB]):\s*(.*)$', line)
+    m = re.match(r'^(C\d\d_[A-D]):\s*(.*)$', line)
     if not m:
         continue
     mid, rest = m.group(1), m.group(2)
@@ -24,7 +24,7 @@ for line in open(log):
 md = ['# Seeded property-breaking changes: what the registered checks report', '',
       'Produced by `tools/mutall.sh` (each patch applied to a scratch clone of /repo, never to /repo) and',
       '`tools/mkresults.py`. Every patch compiles and passes the 266 existing tests; its `demo_test.go`',
-      'fails with the patch and passes without (recorded by the sub-agent that wrote it, in meta.json).', '',
+      'fails with the patch and passes without (recorded by the sub-agent that wrote it, in meta.json, and re-run by `tools/confirm_seeded.sh`: column 3).', '',
       '| change | own property | demonstration confirmed on current tree | detected by | first failed obligation (replay file name) |', '|---|---|---|---|---|']
 det = 0
 for mid, runs in rows:
@@ -52,7 +52,7 @@ md += ['', '%d of %d changes are reported by at least one registered check.' % (
        'Not detected, and why (the contracts that would be needed are listed as NOT proved in the claims):', '',
        '* C01_B, C16_A: completeness of the sliding-window slice scan (fillShardInfos, rolling CRC) is not under contract (C16 not applicable).',
        '* C06_A, C06_B: order/layout independence of readFile / LoadParityData is a relational property (C06 not applicable); the changed code still satisfies every single-call contract (no panic, well-formed result or error).',
-       '* C18_A: an early `return nil, nil` in par2 Decoder.Repair when all slices are in place; the contract says what a WriteFile must satisfy and that success is reported only after the writes that happened, not that every file whose flags are bad is written (needs a per-file ghost set; see DESIGN §9).',
+       '* C18_A (early `return nil, nil` in par2 Decoder.Repair) was not detected until the contract `success with nothing written only if no file was flagged` was added (DESIGN 9.10); C17_C, C03_C, C18_C were missed by the first version of the checks they were written against and led to the order obligations, the prelude pruning and the new-return rule (DESIGN 9.6).',
        '* C05_A, C17_A are not caught by the C05/C17 checks themselves but by C12/C07 (the partition obligations), which is where the defect lives.', '',
        'Demonstration not reproducible on the current tree (C13_A, C15_B, C19_B): these three changes were written before the `fix:` commits; the fixes D5/D11 now catch downstream what the change lets through, so their demonstration tests pass with the change applied (tools/confirm_seeded.sh). The checks still report the broken function-level contract (see the note in each meta.json); for C19_B the property is still broken for other inputs, for C13_A and C15_B the report is about a contract that another function now backs up -- the modular rule at work, not a failing input.']
 open('/verif/seeded/RESULTS.md', 'w').write('\n'.join(md) + '\n')
